@@ -333,7 +333,9 @@ pub fn part_hosts_for(run: &mut Run, prop: &str, panics_only: bool) {
         let consuming: Vec<&P> = s.params.iter().filter(|p| !matches!(p, P::Args)).collect();
         let n = consuming.len();
         let has_this = s.params.iter().any(|p| matches!(p, P::This(_) | P::ThisOpt(_)));
-        for (ni, name) in ["hf", "size"].iter().enumerate() {
+        // a fresh name, the name of a built-in (override), and a name spelled like an operator
+        // (operator function names start with `_`): dispatch must not depend on the spelling
+        for (ni, name) in ["hf", "size", "_hf"].iter().enumerate() {
             let mut ctx = Context::default();
             ctx.add_variable_from_value("idv", Value::Int(5));
             register(&mut ctx, &log, i, name);
@@ -345,7 +347,9 @@ pub fn part_hosts_for(run: &mut Run, prop: &str, panics_only: bool) {
                 let matching = |p: &P| -> Arg {
                     match p {
                         P::Pos(k) | P::This(k) | P::ThisOpt(k) => good(*k),
-                        P::Ident => Arg { src: "idv", val: MV::Int(5), ident: true },
+                        // (under the underscore name the identifier is unbound: an Identifier parameter
+                        // takes the name and never evaluates it)
+                        P::Ident => Arg { src: if ni == 2 { "idu" } else { "idv" }, val: MV::Int(5), ident: true },
                         P::Expr => Arg { src: "(1 + 1)", val: MV::Int(2), ident: false },
                         P::Args => unreachable!(),
                     }
@@ -388,7 +392,7 @@ pub fn part_hosts_for(run: &mut Run, prop: &str, panics_only: bool) {
                             let calls: Vec<Ev> = log.lock().unwrap().clone();
                             let case = || json!({"signature": sig_tag(&s), "call": call, "expected": format!("{:?}", exp), "got": got.show(), "invocations": calls.len()});
                             let ec = extractor_class(&s);
-                            let over = if ni == 1 { "override" } else { "fresh" };
+                            let over = ["fresh", "override", "underscore-name"][ni];
                             run.class(&format!("host:{}:{}:{}:{}", ec, over, match exp { Expect::Invoked(_) => "bind", Expect::Err => "reject", Expect::InvokedOrErr(_) => "extra" }, got.tag()), case);
                             if let Out::Panic(p) = &got {
                                 run.fail(&format!("{}|host|{}|{}|panic", prop, ec, over), format!("`{}` with signature ({}) panicked: {}", call, sig_tag(&s), p), case());
